@@ -356,6 +356,16 @@ func (g *gen) scope() Scope {
 	var s string
 	if len(g.scopeList) > 0 && chance(g.rt, "scopeExtend", 5) {
 		s = pick(g.rt, "scopeBase", g.scopeList...) + "/" + g.repoComponent()
+	} else if len(g.scopeList) > 0 && chance(g.rt, "scopeCaseTwin", 6) {
+		// a scope already in use with the letters of its host part in the other case: another string,
+		// hence another scope (scopes are compared exactly), and as valid as the first
+		base := pick(g.rt, "twinBase", g.scopeList...)
+		host, rest, _ := strings.Cut(base, "/")
+		twin := strings.ToUpper(host)
+		if twin == host {
+			twin = strings.ToLower(host)
+		}
+		s = twin + "/" + rest
 	} else {
 		s = g.domain()
 		n := intRange(g.rt, "nComp", 1, 3)
